@@ -72,5 +72,5 @@ pub fn build_stream(
 
 pub fn stream_sizes(tier: Tier) -> (usize, usize) {
     // (replicates per family x ncomp, states per model)
-    tier.pick((8, 24), (150, 100))
+    tier.pick((8, 24), (300, 150))
 }
